@@ -780,6 +780,9 @@ GC_FRAME = ("_num_started", "_enough_room", "_task_groups", "size")
 @unit(P_B + "gather_and_close", ("C08", "C12", "C03", "C07"), [P_B + "gather_and_close", P_B + "lock"])
 def u_gather_and_close(ip: Interp, th: PoolTheory):
     install(ip)
+    # not called by gather_and_close on this tree; a variant that awaits flush() (seeds C08j, C08k) is then executed with the
+    # verified contract of the helper instead of going undecided on its set-up code
+    ip.contracts[P_B + "_pop_ended_meta_tasks"] = c_pop_ended_meta_tasks
     th.loops_need_inv = True
     th.segment_frame = GC_FRAME
     th.private_keys = ("closing", "closing2")  # ghost flags owned by the closing thread
